@@ -113,6 +113,9 @@ structure ConnSt where
   peerClosed : Bool := false
   /-- removed from the connection table -/
   gone : Bool := false
+  /-- bytes the peer sent while the client was blocked sit unread in the socket (in front of the end-of-file,
+      if the peer has closed since) -/
+  unread : Bool := false
 
 /-- Switches between what the code does (`false`) and the prescribed behaviour (`true`). -/
 structure Quirks where
@@ -150,12 +153,22 @@ structure Quirks where
       loop iteration
       (code: the element is popped first and dropped when the client turns out not to be blocked). -/
   wakeChecksClient : Bool
+  /-- each round of `serve_key` carries out ALL queued wake-up requests, so none is left behind when the head waiter
+      of the key turns out to be stale and `wake_client` queues a request for the next one
+      (code: one `process_wakeups` call per round; the round after it ends the loop because the next waiter has
+      already left the registry, and its request stays queued until the next command drains it — inside a later
+      EXEC if that is what comes next). -/
+  serveDrains : Bool
+  /-- the hang-up probe of a blocked connection (`Connection::peer_closed`, also used by `wake_client`) takes what
+      the peer sent off the socket, so that it sees the end-of-file behind it
+      (code: a one-byte `peek`, which answers "still there" as long as any unread byte is in front of the FIN). -/
+  probeReadsInput : Bool
 deriving DecidableEq, Repr
 
 /-- The tree before the first blocking repair.  What the tree does on a given run is read from the source by the
     translator (Gen/Blocking.lean) and confirmed over TCP by lib/c13.py. -/
-def Quirks.code : Quirks := ⟨false, false, false, false, false, false, false, false, false, false⟩
-def Quirks.fixed : Quirks := ⟨true, true, true, true, true, true, true, true, true, true⟩
+def Quirks.code : Quirks := ⟨false, false, false, false, false, false, false, false, false, false, false, false⟩
+def Quirks.fixed : Quirks := ⟨true, true, true, true, true, true, true, true, true, true, true, true⟩
 
 structure State where
   store : List (Key × Elem) := []
@@ -252,6 +265,10 @@ def wakeTargetOk (s : State) (w : Wake) : Bool :=
     | some b => b.keys.contains w.key
     | none => false
 
+/-- `Connection::peer_closed` on a blocked connection: does the server's look at the socket show the hang-up? -/
+def probeSees (q : Quirks) (s : State) (c : Conn) : Bool :=
+  (s.conns c).peerClosed && (q.probeReadsInput || !(s.conns c).unread)
+
 /-- `wake_client` for the request at the head of the wake queue. -/
 def wakeOne (q : Quirks) (s : State) : State :=
   match s.wakeQ with
@@ -260,7 +277,7 @@ def wakeOne (q : Quirks) (s : State) : State :=
     let s0 : State := { s with wakeQ := rest }
     if q.wakeChecksClient = true ∧ wakeTargetOk s0 w = false then
       (if s0.store.any (keyIs w.key) then notify w.key s0 else s0)
-    else if q.wakeChecksClient = true ∧ (s0.conns w.conn).peerClosed = true then
+    else if q.wakeChecksClient = true ∧ probeSees q s0 w.conn = true then
       -- blocked on the key, but a look at the socket shows that the peer has gone: the client is dropped as the
       -- hang-up probe would drop it (closing, unregistered everywhere), the element stays, the next waiter's turn
       let s1 : State := { (setBlocked s0 w.conn none) with
@@ -289,11 +306,16 @@ def dedupL : List Key → List Key
 /-- The keys a blocking pop registers on. -/
 def regKeys (q : Quirks) (keys : List Key) : List Key := if q.dedupKeys = true then dedupL keys else keys
 
-/-- `serve_key`: while the key has both a waiter and an element, notify the head waiter and carry the wake-up out. -/
+/-- `serve_key`: while the key has both a waiter and an element, notify the head waiter and carry the wake-up out
+    (one `process_wakeups` call; with `serveDrains`, calls until the queue is empty). -/
 def serveKey (q : Quirks) (k : Key) : Nat → State → State
   | 0, s => s
   | n+1, s =>
-    if s.registry.any (keyIs k) && s.store.any (keyIs k) then serveKey q k n (wakeOne q (notify k s)) else s
+    if s.registry.any (keyIs k) && s.store.any (keyIs k) then
+      serveKey q k n
+        (if q.serveDrains = true then iter (wakeOne q) ((notify k s).wakeQ.length + (notify k s).registry.length) (notify k s)
+         else wakeOne q (notify k s))
+    else s
 
 /-- The keys the queued commands push to, in order. -/
 def pushKeys : List Cmd → List Key
@@ -338,9 +360,11 @@ def dataCore (q : Quirks) (now : Nat) (c cid : Conn) (s : State) : Cmd → State
   | .multi => s
   | .exec => s
 
-/-- The handler, then the wake-ups it (or an earlier command) requested. -/
+/-- The handler, then the wake-ups it (or an earlier command) requested.  The drain at the end of
+    `process_normal_command` also runs for a command executed by EXEC (`cid = 0`): with `execAtomic` such a command
+    requests no wake-up itself, but a request left in the queue by an earlier command is carried out here. -/
 def dataCmd (q : Quirks) (now : Nat) (c cid : Conn) (s : State) (cmd : Cmd) : State :=
-  if q.execAtomic = true ∧ cid = 0 then dataCore q now c cid s cmd else drain q (dataCore q now c cid s cmd)
+  drain q (dataCore q now c cid s cmd)
 
 /-- One frame of the batch (`process_frame`): MULTI / EXEC, queueing inside a transaction, else the handler. -/
 def topCmd (q : Quirks) (now : Nat) (c : Conn) (s : State) : Cmd → State
@@ -379,6 +403,11 @@ inductive Event where
   | timeouts (now : Nat)
   | hangup (c : Conn)
   | reap (c : Conn)
+  /-- `CLIENT KILL` of `c` handled in this iteration (`close_connection`: the state becomes `Closing`; the
+      connection leaves the table, and the registries, in `cleanup_connections` at the END of the iteration — `reap c`) -/
+  | kill (c : Conn)
+  /-- the peer writes bytes and then closes; while the client is blocked the server does not read them -/
+  | hangupDirty (c : Conn)
 deriving DecidableEq, Repr
 
 /-- Can `process_connections` run the batch: the connection exists, its peer is there, it is not blocked. -/
@@ -404,9 +433,16 @@ def step (q : Quirks) (s : State) : Event → State
   | .hangup c =>
     if c != 0 && !(s.conns c).gone then setConn s c fun cs => { cs with peerClosed := true } else s
   | .reap c =>
-    if c != 0 && !(s.conns c).gone && (s.conns c).peerClosed && ((s.conns c).blocked.isNone || q.noticeBlockedHangup) then
+    if c != 0 && !(s.conns c).gone && (s.conns c).peerClosed &&
+        ((s.conns c).blocked.isNone || (q.noticeBlockedHangup && probeSees q s c)) then
       let s1 := setConn s c fun cs => { cs with gone := true, blocked := none }
       { s1 with registry := s1.registry.filter fun x => x.2.conn != c }
+    else s
+  | .kill c =>
+    if c != 0 && !(s.conns c).gone then setConn s c fun cs => { cs with blocked := none, peerClosed := true } else s
+  | .hangupDirty c =>
+    if c != 0 && !(s.conns c).gone then
+      setConn s c fun cs => { cs with peerClosed := true, unread := cs.unread || cs.blocked.isSome }
     else s
 
 def runFrom (q : Quirks) (s : State) (evs : List Event) : State := evs.foldl (step q) s
@@ -466,13 +502,15 @@ def batchOk (q : Quirks) (now : Nat) (c : Conn) : List Cmd → State → Bool
       (if q.deferBatchWhenBlocked = true ∧ ((topCmd q now c s cmd).conns c).blocked.isSome = true then true
        else batchOk q now c r (topCmd q now c s cmd))
 
-/-- No disconnect while blocked; batches as above. -/
+/-- No disconnect (hang-up or CLIENT KILL) while blocked; batches as above. -/
 def eventOk (q : Quirks) (s : State) : Event → Bool
   | .conn c now cmds =>
     if canRun s c = true then
       batchOk q now c ((s.conns c).pending ++ cmds) (setConn s c fun cs => { cs with pending := [] })
     else true
   | .hangup c => (s.conns c).blocked.isNone
+  | .kill c => (s.conns c).blocked.isNone
+  | .hangupDirty c => (s.conns c).blocked.isNone
   | _ => true
 
 def allowedFrom (q : Quirks) : State → List Event → Bool
@@ -544,6 +582,8 @@ def eventOkF (q : Quirks) (s : State) : Event → Bool
       batchOkF q now c ((s.conns c).pending ++ cmds) (setConn s c fun cs => { cs with pending := [] })
     else true)
   | .hangup c => (s.conns c).blocked.isNone || (q.noticeBlockedHangup && q.wakeChecksClient)
+  | .kill c => (s.conns c).blocked.isNone
+  | .hangupDirty c => (s.conns c).blocked.isNone || (q.noticeBlockedHangup && q.wakeChecksClient && q.probeReadsInput)
   | _ => true
 
 def allowedFixedFrom (q : Quirks) : State → List Event → Bool
